@@ -18,6 +18,7 @@ func main() {
 	out := flag.String("out", "", "result file")
 	drv := flag.String("ppdrv", "", "path of the model driver")
 	replay := flag.String("replay", "", "replay file")
+	flag.Bool("search", false, "search mode: a proof or correspondence broke, look harder for a failing input")
 	flag.Parse()
 	if flag.NArg() != 1 {
 		fmt.Fprintln(os.Stderr, "usage: harness [flags] <property>")
